@@ -119,6 +119,16 @@ pub fn judge_cell(ctx: &mut Ctx, layer: &'static Layer, depth: u8, h: u64) {
 
 fn rejections(ctx: &mut Ctx, layer: &'static Layer, depth: u8) {
   let nh = n_hash(depth);
+  // the base-cell table function behind the Layer methods (public): every base cell >= 12 is rejected in the 9 directions, and its
+  // answers for the 12 base cells are those of the depth-0 layer
+  if depth == 0 {
+    for b in 0..=255u8 { for i in 0..9u8 {
+      ctx.eval();
+      let r = catch(|| cdshealpix::neighbour(b, mw(i)));
+      if b >= 12 { if let Ok(x) = r { ctx.violation("neighbour-accepts-cell-number>=n_hash", Case::new("bad").u("depth", 0).u("h", b as u64).u("dir", i as u64).s("fn", "cdshealpix::neighbour"), format!("base cell {} dir={:?} -> {:?}", b, mw(i), x)); } else { ctx.bump("rejections-observed"); } }
+      else { match (r, catch(|| layer.neighbour(b as u64, mw(i)))) { (Ok(x), Ok(y)) => if x.map(|v| v as u64) != y { ctx.violation("neighbour(h,dir)-differs-from-neighbours(h)", Case::new("cell").u("depth", 0).u("h", b as u64).u("dir", i as u64).s("fn", "cdshealpix::neighbour"), format!("base-cell function {:?} vs Layer::neighbour {:?}", x, y)); }, (a, c2) => ctx.violation("neighbour-panics-on-valid-cell", Case::new("cell").u("depth", 0).u("h", b as u64).u("dir", i as u64), format!("{:?} / {:?}", a.err(), c2.err())) } }
+    } }
+  }
   let mut rng = Rng::new(ctx.seed, 41_000 + depth as u64);
   for &bad in bad_cell_numbers(&mut rng, depth).iter() {
     if bad < nh { continue; }
